@@ -215,15 +215,18 @@ fn classify(base: &str, got: &[Vec<u8>], want: &[Vec<u8>], content: &Content, rp
     if g == w {
         return None;
     }
+    // most specific first, so that a new kind of disagreement is not filed under a recorded one
+    let not_listed = ids.as_ref().map_or(false, |l| got.iter().any(|i| !l.contains(i)));
     let foreign = got.iter().any(|i| content.creds.iter().any(|c| c.credential_id.as_slice() == i.as_slice() && c.rp_id != rp));
-    let kind = if foreign {
-        "returns a credential bound to another RP"
+    let missing_own = want.iter().any(|i| !got.contains(i));
+    let kind = if not_listed {
+        "returns a credential that is not in the id list"
     } else if ids.is_none() && got.is_empty() && !want.is_empty() {
         "returns nothing for an id-less lookup although the RP has credentials"
-    } else if got.is_empty() && !want.is_empty() {
-        "returns nothing although a listed credential of the RP exists"
-    } else if ids.as_ref().map_or(false, |l| got.iter().any(|i| !l.contains(i))) {
-        "returns a credential that is not in the id list"
+    } else if missing_own && ids.is_some() {
+        "does not return a listed credential of the RP"
+    } else if foreign {
+        "returns a credential bound to another RP"
     } else {
         "disagrees with the lookup contract"
     };
